@@ -4,7 +4,7 @@ UNIT = dict(
     exclude=('hm_ctor_1',),
     defines=['FRGV_ZERO_RECORD_LOCALS'],
     sources=['harness.c'],
-    assumptions=['hash functor: arbitrary pure function of the key (symbolic table H[key]), colliding hashes included',
+    assumptions=['hash functor: pure function of the key; four representative functions per state (constant, identity, k*3, k*10+1) cover all-colliding, spread, colliding-before-growth and colliding-after-growth placements',
                  'hash_map(initializer_list) constructor not covered (std::initializer_list is outside the lowered AST)',
                  'tables built constructively with capacity 1..3 (and 10 after growth) and up to 3 entries'],
 )
@@ -13,17 +13,19 @@ OPS = {0: 'constructed table', 1: 'insert(const&) of an absent key', 2: 'insert(
 def obligations(tier):
     obs = []
     caps = [1, 2, 3] if tier == 'quick' else [1, 2, 3, 4]
-    for cap in caps:
-        for n in range(0, 4 if tier == 'quick' else 5):
-            for op, what in OPS.items():
-                obs.append(dict(id='hm.cap%d.n%d.op%d' % (cap, n, op), entry='h_hm', cls='B', serves=['C14', 'C16'], unwind=14, leak=True,
-                                defines=['HM_CAP=%d' % cap, 'HM_N=%d' % n, 'HM_OP=%d' % op], function='hm_op_index',
-                                bound='table with %d buckets and %d entries (keys 1..%d), arbitrary symbolic hash, then %s; all 6 keys of the universe queried' % (cap, n, n, what),
-                                timeout=900))
-    # capacity 0 (fresh map): every operation from the empty map
-    for op, what in OPS.items():
-        if op == 0: continue
-        obs.append(dict(id='hm.fresh.op%d' % op, entry='h_hm', cls='B', serves=['C14', 'C16'], unwind=14, leak=True,
-                        defines=['HM_CAP=0', 'HM_N=0', 'HM_OP=%d' % op], function='hm_op_index',
-                        bound='freshly constructed map (no table), then %s' % what, timeout=900))
+    keys = {1: [0, 4], 2: [0, 4], 3: [1, 2, 4], 4: [1, 3, 5]}        # absent keys for insert; present and absent for [] and remove
+    for cap in [0] + caps:
+        for n in ([0] if cap == 0 else range(0, 4 if tier == 'quick' else 5)):
+            for h in range(4):
+                for op, what in OPS.items():
+                    if op == 0 and cap == 0:
+                        continue
+                    ks = [0] if op in (0, 5) else ([k for k in keys[op] if (k > n or k == 0) or op in (3, 4)])
+                    for k in ks:
+                        if op in (1, 2) and 1 <= k <= n:
+                            continue
+                        obs.append(dict(id='hm.cap%d.n%d.h%d.op%d.k%d' % (cap, n, h, op, k), entry='h_hm', cls='B', serves=['C14', 'C16'], unwind=14, leak=True,
+                                        defines=['HM_CAP=%d' % cap, 'HM_N=%d' % n, 'HM_OP=%d' % op, 'HM_H=%d' % h, 'HM_KEY=%d' % k], function='hm_op_index',
+                                        bound='table with %d buckets and %d entries (keys 1..%d), hash function #%d, then %s on key %d; all 6 keys of the universe queried, symbolic values' % (cap, n, n, h, what, k),
+                                        timeout=600))
     return obs
